@@ -26,6 +26,7 @@ func init() {
 type segRec struct {
 	off, end int64
 	times    []time.Duration // emission instants
+	refused  int             // how many of them the device refused (never on the wire)
 	acked    bool
 }
 
@@ -439,16 +440,33 @@ func (w *recWorld) apply(s Step) {
 			before[o] = len(s.times)
 		}
 		hadTimeout := w.rtoSeen
+		need := w.silenceNeeded(s.B == 1)
+		refusedBefore := 0
+		if sr != nil {
+			refusedBefore = sr.refused
+		}
+		if s.B == 1 {
+			// the device refuses the first frame of the silent period - as a rule the first timeout's retransmission.
+			// For the stack a refused frame is a lost one: the timer runs on and the next timeout repeats it.
+			w.S.Link.FailWrites = 1
+			w.Probes["link_write_faults_armed"]++
+		}
 		w.Advance(time.Duration(s.D))
 		w.observe()
 		w.inAdvance = false
 		w.inbox = nil
+		if s.B == 1 {
+			if w.S.Link.FailWrites == 0 && sr != nil && sr.refused > refusedBefore {
+				w.Probes["timeout_retransmissions_refused_by_the_device"]++
+			}
+			w.S.Link.FailWrites = 0
+		}
 		if sr == nil || w.Viol != nil {
 			return
 		}
-		if !hadTimeout && !w.dead && time.Duration(s.D) >= 7*time.Second && len(sr.times) == base && w.Probes["fast_retransmits"] == 0 {
-			// the first timeouts of a connection come after at most 1 s, 2 s and 4 s: seven silent seconds with
-			// unacknowledged data and not one retransmission on the wire (a refused one would have been repeated)
+		if !hadTimeout && !w.dead && time.Duration(s.D) >= need && len(sr.times)-base-(sr.refused-refusedBefore) <= 0 && w.Probes["fast_retransmits"] == 0 {
+			// long enough for the first timeout whatever the stack has measured (silenceNeeded), and for the one
+			// after it if the device refused the first: not one retransmission on the wire
 			w.Fail("no-retransmission-by-timeout", "", "peer silent for %v with the segment at stream offset %d unacknowledged (no timeout on this connection before): it was never retransmitted", time.Duration(s.D), first)
 		}
 		ts := sr.times[base:]
@@ -497,6 +515,25 @@ func (w *recWorld) apply(s Step) {
 	}
 }
 
+// silenceNeeded: how long the peer has to stay silent before a retransmission must have appeared on the wire, on a
+// connection that has had no timeout yet. The timer runs since the silence began at the latest; its length is 1 s
+// without a round-trip sample and at most srtt+4*rttvar <= 5 * (the largest sample) otherwise, and no sample is larger
+// than the age of the connection. If the device refuses the first frame, the one after it comes twice that later.
+func (w *recWorld) silenceNeeded(refuse bool) time.Duration {
+	b := 5 * time.Since(w.T0)
+	if b < time.Second {
+		b = time.Second
+	}
+	need := b + time.Second
+	if refuse {
+		need = 3*b + time.Second
+	}
+	if need < 7*time.Second {
+		need = 7 * time.Second
+	}
+	return need
+}
+
 func max64(a, b int64) int64 {
 	if a > b {
 		return a
@@ -508,8 +545,8 @@ func (w *recWorld) next() Step {
 	r := w.Rng
 	switch r.Pick(4, 6, 10, 2, 1, 4, 2, 1, 1, 1, 1) {
 	case 10:
-		// (link write faults are not generated here: a refused transmission is invisible on the wire, and the
-		// timing clauses of this scenario are read off the wire)
+		// (link write faults at arbitrary points are not generated here: a refused transmission is invisible on the
+		// wire, and the timing clauses of this scenario are read off the wire; see the silent step for the one that is)
 		return Step{Op: "adv", D: int64(time.Duration(r.Range(1, 500)) * time.Millisecond)}
 	case 9:
 		if len(w.inbox) >= 2 {
@@ -539,7 +576,16 @@ func (w *recWorld) next() Step {
 	case 5:
 		return Step{Op: "adv", D: int64(time.Duration(r.Range(1, []int{50, 500, 2000}[r.Intn(3)])) * time.Millisecond)}
 	}
-	return Step{Op: "silent", D: int64(time.Duration(r.Range(1, 130)) * time.Second)}
+	st := Step{Op: "silent", D: int64(time.Duration(r.Range(1, 130)) * time.Second)}
+	if !w.rtoSeen && r.Chance(0.2) {
+		// the only link write fault of this scenario: placed where the wire-read timing clauses can account for it
+		// (the refused frame is recorded as a transmission at its instant)
+		st.B = 1
+		if need := w.silenceNeeded(true); st.D < int64(need) && need < 120*time.Second {
+			st.D = int64(need + time.Duration(r.Range(0, 10))*time.Second)
+		}
+	}
+	return st
 }
 
 func (scRecovery) Run(t *testing.T, prop string, seed uint64, cfgRaw json.RawMessage, steps []Step, tape []byte, trace bool) *RunOut {
@@ -565,19 +611,28 @@ func (scRecovery) Run(t *testing.T, prop string, seed uint64, cfgRaw json.RawMes
 		// transmission of its segment, the peer never sees it
 		w.OnLinkError = func(f *Frame) {
 			d := NewMonitor().Check(f)
-			if d == nil || d.TCP == nil || len(d.TCP.Payload) == 0 || d.TCP.SrcPort != w.p.SPort || d.TCP.DstPort != w.p.PPort {
+			if d == nil || d.TCP == nil || d.TCP.SrcPort != w.p.SPort || d.TCP.DstPort != w.p.PPort || d.TCP.Flags&(codec.FlagSYN|codec.FlagRST) != 0 {
+				return
+			}
+			isFin := d.TCP.Flags&codec.FlagFIN != 0 && len(d.TCP.Payload) == 0
+			if len(d.TCP.Payload) == 0 && !isFin {
 				return
 			}
 			off := int64(int32(d.TCP.Seq - (w.p.StackISS + 1)))
 			sr := w.segs[off]
 			if sr == nil {
-				sr = &segRec{off: off, end: off + int64(len(d.TCP.Payload))}
+				end := off + int64(len(d.TCP.Payload))
+				if isFin {
+					end = off + 1
+				}
+				sr = &segRec{off: off, end: end}
 				w.segs[off] = sr
 				w.order = append(w.order, off)
 			} else {
 				w.Probes["retransmissions"]++
 			}
 			sr.times = append(sr.times, f.At)
+			sr.refused++
 			w.Probes["transmissions_refused_by_the_device"]++
 		}
 		if cfg.SmallWin > 0 {
